@@ -9,7 +9,8 @@ From V.c15 Require Import C15Model C15Spec C15HevcModel C15HevcSpec C15HevcSpsPr
    reference pictures, VUI incl. HRD with sub-layers, range / multilayer / 3D / SCC extensions,
    sps_extension_data_flag bits, rbsp trailing bits checked) the parser applied to the NAL unit
    produced by the independent serialiser returns the coded values; for inter-predicted sets
-   NumDeltaPocs is the size of the set derived by (7-61)/(7-62). *)
+   NumDeltaPocs is the size of the set derived by (7-61)/(7-62) and numUsedByCurrPic the number of
+   its entries with UsedByCurrPic set. *)
 Theorem C15_hevc_sps : forall v,
   hsps_valid v = true -> hparse_sps_br (hnalu_sps v) = Ok (expected_hsps v).
 Proof. exact hevc_sps. Qed.
@@ -25,6 +26,7 @@ Print Assumptions C15_hevc_dims.
 Example C15_hevc_sps_hyps :
   hsps_valid ex_hsps = true
   /\ map rps_ndelta (h_st_rps (expected_hsps ex_hsps)) = [3; 3; 3]
+  /\ map rps_nused (h_st_rps (expected_hsps ex_hsps)) = [0; 2; 2]
   /\ length (hp_subs (h_ptl (expected_hsps ex_hsps))) = 1%nat
   /\ h_num_lt (expected_hsps ex_hsps) = 2
   /\ h_ext_data (expected_hsps ex_hsps) = [true; false; true]
